@@ -39,7 +39,7 @@ BASES = [
 
 
 def boxes(thorough):
-    ends = [-1, 0, 1, 2, 3, 4, 5] if thorough else [-1, 2, 5]
+    ends = [-1, 1, 3, 5] if thorough else [-1, 2, 5]
     iv = [(a, b) for a in ends for b in ends if a < b]
     out = [(x0, y0, x1, y1) for (x0, x1) in iv for (y0, y1) in iv]
     # boxes that exactly cover single cells / the extent of typical partitions
@@ -365,10 +365,12 @@ def _explore_big(col, active_kind, scratch, thorough):
 
 def run(ctx):
     scratch = ctx.scratch()
-    n = 6 if ctx.thorough else 4
+    n = 5 if ctx.thorough else 4
     units = [(bi, n, k) for bi in range(len(BASES)) for k in range(1, n + 1)]
     if not ctx.thorough:
         units += [(bi, 6, k) for bi in range(len(BASES)) for k in (3, 6)][ctx.seed % 2::2]   # a slice of the larger space
+    else:
+        units += [(bi, 6, k) for bi in range(len(BASES)) for k in (2, 3, 4, 6)]           # n=6: masks keeping 3 or 5 rows
     # warm kernels
     for bi in range(len(BASES)):
         P = base_frame(bi, 3)
@@ -382,7 +384,7 @@ def run(ctx):
         if bi == "big":
             explore_big(col, nn, scratch, ctx.thorough)
             return
-        if nn == 6 and not ctx.thorough:
+        if nn == 6:
             explore_small(col, bi, nn, k, scratch, ctx.seed)
         else:
             explore_base(col, bi, nn, k, ctx.thorough, scratch, ctx.seed)
